@@ -83,6 +83,33 @@ theorem complete_stmt {ts : List Token} {s : Option Op} {nxt : LA} (h : RStmt ts
 theorem complete_program {ts : List Token} {out : List Op} (h : RCode [] ts out) :
     parseTokens ts = .ok (.code out) := complete h
 
+/-- **the tree is unique**: the levelled grammar is unambiguous — two derivations of the same token list as a
+    program derive the same tree (both are what the deterministic parser returns) -/
+theorem derived_tree_unique {ts : List Token} {out out' : List Op} (h : RCode [] ts out) (h' : RCode [] ts out') :
+    out = out' := by
+  have e := complete h
+  rw [complete h'] at e
+  injection e with e
+  injection e with e
+  exact e.symm
+
+/-- … and likewise for expressions in any context: same tokens, same look-ahead ⇒ same tree -/
+theorem derived_expr_unique {m : Nat} {a : Assoc} {ts : List Token} {t t' : Op} {b b' : Bool} {nxt : LA}
+    (h : RExpr m a ts t b nxt) (h' : RExpr m a ts t' b' nxt) : t = t' ∧ b = b' := by
+  obtain ⟨n, _, hn⟩ := cExpr h
+  obtain ⟨n', _, hn'⟩ := cExpr h'
+  -- a continuation with the recorded look-ahead
+  have ⟨tl, htl⟩ : ∃ tl : List Token, peekTy tl = nxt := by
+    cases nxt with
+    | none => exact ⟨[], rfl⟩
+    | some ty => exact ⟨[{ ty := ty, val := [], pos := 0, line := 0 }], rfl⟩
+  have e := hn (n + n') (by omega) tl htl
+  rw [hn' (n + n') (by omega) tl htl] at e
+  injection e with e
+  injection e with e1 _
+  injection e1 with e2 e3
+  exact ⟨e2.symm, e3.symm⟩
+
 /-- non-vacuity: the relation derives `x = a + b * c ; y` (for any tokens of these types) with the table's
     grouping, so `complete_program` says the parser returns exactly that tree -/
 theorem derivation_example {x eq a pl b ti c nl y : Token}
